@@ -34,6 +34,10 @@ class IntegerData(NumericData):
         if np.any(np.modf(values)[0] != 0):
             raise TypeError("Values cannot have decimal points.")
 
+        limits = np.iinfo(np.int32)
+        if np.any(values < limits.min) or np.any(values > limits.max):
+            raise ValueError("Values must be within the 32-bit integer range.")
+
         return values.astype(np.int32)
 
     @classmethod
